@@ -130,6 +130,12 @@ static size_t find_earliest_deadline(reproc_event_source *sources,
       return i;
     }
 
+    if (current == REPROC_INFINITE) {
+      // No deadline: `REPROC_INFINITE` is negative and would otherwise compare
+      // as earlier than every real deadline.
+      continue;
+    }
+
     if (min == REPROC_INFINITE || current < min) {
       earliest = i;
       min = current;
